@@ -123,7 +123,7 @@ def h : Handler := fun op j =>
       | .error e => pure (showErr e)
   | "dup" => do
       let tab ← getTable j
-      let mode ← getMode j
+      let isNone := (← getStr j "mode") == "None"      -- the RAW argument: "1" is not None
       let reac ← getStrList j "reactants"
       let prod ← getStrList j "products"
       let core : List String → List String → Except Err (List String × List String) := fun r p =>
@@ -131,7 +131,7 @@ def h : Handler := fun op j =>
         | some "ok" => .ok (r, p)
         | some o => .error (outcomeErr o)
         | none => .error .untried
-      match dupSearch mode core (reac.length + 1) (← getBool j "allow") reac prod with
+      match dupSearch isNone core (reac.length + 1) (← getBool j "allow") reac prod with
       | .ok (r, p) => pure s!"ok {showStrList r} {showStrList p}"
       | .error e => pure (showErr e)
   | "cks" => do
